@@ -156,6 +156,11 @@ func Check(r *ev.Run, replay string) {
 		progen.F6(y)
 		progen.C02(r.Thorough(), y)
 		progen.F7(y)
+		progen.F4c(2, y)
+		progen.F8(false, y)
+		if r.Thorough() {
+			progen.F8(true, y)
+		}
 	}, run)
 	scaled(r, c)
 	r.Set("states", int(c.states))
